@@ -432,47 +432,165 @@ void h_reg_entry_load_default(void)
   VERIF_CANARY();
 }
 
-/* sanitise: a table of 0..RT_SAN_EMAX registers in one area, every
- * type, constraint kind (no always-fail), bound, default, flag word and --
- * the point -- ARBITRARY storage content; g_reg is an arbitrary handle. */
+/* sanitise: a table of 0..RT_SAN_EMAX registers spread over two areas (each
+ * memory backed or callback backed, with or without write callback), every
+ * type, constraint kind (no always-fail), bound, default, flag word, byte
+ * order and -- the point -- ARBITRARY storage content; g_reg is an arbitrary
+ * handle, g_cell an arbitrary word of either area or outside both.  The ghosts
+ * of spec/registers-sanitise.h are COMPUTED here from the table. */
 RegisterHandle g_reg;
+RegisterAtom *g_rs_w;
+uint16_t *g_rs_fl;
+unsigned g_rs_n;
+bool g_rs_be, g_rs_old_acc, g_rs_def_acc, g_rs_cell_free, g_rs_all_cf;
+uint64_t g_rs_defbits;
+uint16_t g_rs_flags0;
+static RegisterAtom rt_rs_no_words[4];
+static uint16_t rt_rs_no_flags;
 
 #define RT_SAN_ENTRY(i, pfx) \
   if ((i) < in_entries) { \
-    RT_ENTRY(ent, area_a, pfx) \
+    IN(_Bool, pfx##_in_b) \
+    RegisterArea *ar = pfx##_in_b ? area_b : area_a; \
+    RT_ENTRY(ent, ar, pfx) \
     ASSUME(pfx##_check != REGV_TYPE_FAIL); \
     t->entry[i] = ent; \
   }
 
+/* register i (if any) shares no word with register g_reg; is outside g_cell;
+ * cannot fail */
+#define RT_SAN_H_DISJOINT(i) IMPLIES((i) < t->entries && g_reg < t->entries && (i) != g_reg, rt_disjoint(t, i, g_reg))
+#define RT_SAN_H_OUTSIDE(i) IMPLIES((i) < t->entries, rt_cell_outside(t, i, g_cell))
+#define RT_SAN_H_CANNOT_FAIL(i) IMPLIES((i) < t->entries, rt_san_cannot_fail(t, i))
+
+#ifdef RT_SAN_FIXED_BLOCKS
+/* constant-size blocks: areas of exactly RT_ASIZE words, entry block of exactly
+ * RT_SAN_EMAX entries (the family contains the exact-fit cases: a register
+ * ending at the last word, a table of RT_SAN_EMAX registers) */
+#undef RT_AREA_SIZE
+#define RT_AREA_SIZE(name) uint32_t name = RT_ASIZE;
+#define RT_SAN_ENTRY_BLOCK() RT_ENTRY_BLOCK(in_entry_block, RT_SAN_EMAX)
+#else
+#define RT_SAN_ENTRY_BLOCK() RT_ENTRY_BLOCK(in_entry_block, in_entries)
+#endif
+
+#if RT_SAN_EMAX <= 2
+#define RT_SAN_ENTRIES() RT_SAN_ENTRY(0u, in_e0) RT_SAN_ENTRY(1u, in_e1)
+#elif RT_SAN_EMAX <= 4
+#define RT_SAN_ENTRIES() RT_SAN_ENTRY(0u, in_e0) RT_SAN_ENTRY(1u, in_e1) RT_SAN_ENTRY(2u, in_e2) RT_SAN_ENTRY(3u, in_e3)
+#elif RT_SAN_EMAX <= 8
+#define RT_SAN_ENTRIES() RT_SAN_ENTRY(0u, in_e0) RT_SAN_ENTRY(1u, in_e1) RT_SAN_ENTRY(2u, in_e2) RT_SAN_ENTRY(3u, in_e3) \
+  RT_SAN_ENTRY(4u, in_e4) RT_SAN_ENTRY(5u, in_e5) RT_SAN_ENTRY(6u, in_e6) RT_SAN_ENTRY(7u, in_e7)
+#else
+#define RT_SAN_ENTRIES() RT_SAN_ENTRY(0u, in_e0) RT_SAN_ENTRY(1u, in_e1) RT_SAN_ENTRY(2u, in_e2) RT_SAN_ENTRY(3u, in_e3) \
+  RT_SAN_ENTRY(4u, in_e4) RT_SAN_ENTRY(5u, in_e5) RT_SAN_ENTRY(6u, in_e6) RT_SAN_ENTRY(7u, in_e7) \
+  RT_SAN_ENTRY(8u, in_e8) RT_SAN_ENTRY(9u, in_e9) RT_SAN_ENTRY(10u, in_e10) RT_SAN_ENTRY(11u, in_e11) \
+  RT_SAN_ENTRY(12u, in_e12) RT_SAN_ENTRY(13u, in_e13) RT_SAN_ENTRY(14u, in_e14) RT_SAN_ENTRY(15u, in_e15)
+#endif
+
+/* the table: t, area_a, area_b, g_reg, g_cell; registers filled in when the
+ * table is initialised */
+#define RT_SAN_TABLE() \
+  GHOST_HAVOC(); \
+  IN(uint16_t, in_flags) IN(uint32_t, in_entries) IN(uint16_t, in_areas) IN(uint32_t, in_reg) \
+  IN(uint8_t, in_wr_verdict) IN(uint8_t, in_rd_verdict) IN(uint32_t, in_wr_address) IN(uint32_t, in_rd_address) \
+  IN(_Bool, in_cell_in_b) IN(_Bool, in_cell_free) IN(_Bool, in_all_cf) \
+  st_wr_verdict = in_wr_verdict; st_rd_verdict = in_rd_verdict; \
+  st_wr_address = in_wr_address; st_rd_address = in_rd_address; \
+  RT_NATIVE_SEED() \
+  ASSUME(in_entries <= RT_SAN_EMAX); \
+  RegisterArea *area_a, *area_b; \
+  { RT_AREA(a, in_a) area_a = a; } \
+  { RT_AREA(a, in_b) area_b = a; } \
+  RT_SAN_ENTRY_BLOCK() \
+  RegisterTable tab; RegisterTable *t = &tab; \
+  t->flags = in_flags; t->areas = in_areas; t->area = area_a; t->entries = in_entries; t->entry = in_entry_block; \
+  g_reg = in_reg; \
+  g_cell = in_cell_in_b ? ((g_k < area_b->size) ? &area_b->mem[g_k] : &rt_elsewhere) \
+                        : ((g_k < area_a->size) ? &area_a->mem[g_k] : &rt_elsewhere); \
+  if ((in_flags & REG_TF_INITIALISED) != 0) { \
+    RT_SAN_ENTRIES() \
+  } else { \
+    IN(int, in_entry_null) if (in_entry_null) t->entry = (RegisterEntry *)0; \
+  }
+
 void h_register_sanitise(void)
 {
-  GHOST_HAVOC();
-  IN(uint16_t, in_flags) IN(uint32_t, in_entries) IN(uint16_t, in_areas) IN(uint32_t, in_reg)
-  IN(uint8_t, in_wr_verdict) IN(uint8_t, in_rd_verdict) IN(uint32_t, in_wr_address) IN(uint32_t, in_rd_address)
-  st_wr_verdict = in_wr_verdict; st_rd_verdict = in_rd_verdict;
-  st_wr_address = in_wr_address; st_rd_address = in_rd_address;
-  RT_NATIVE_SEED()
-  ASSUME(in_entries <= RT_SAN_EMAX);
-  RegisterArea *area_a;
-  { RT_AREA(a, in_a) area_a = a; }
-  RT_ENTRY_BLOCK(in_entry_block, in_entries)
-  RegisterTable tab; RegisterTable *t = &tab;
-  t->flags = in_flags; t->areas = in_areas; t->area = area_a; t->entries = in_entries; t->entry = in_entry_block;
-  if ((in_flags & REG_TF_INITIALISED) != 0) {
-    RT_SAN_ENTRY(0u, in_e0)
-#if RT_SAN_EMAX >= 2
-    RT_SAN_ENTRY(1u, in_e1)
-#endif
-#if RT_SAN_EMAX >= 3
-    RT_SAN_ENTRY(2u, in_e2)
-#endif
-    ASSUME(RT_SAN_PAIRS(RT_SAN_PAIR_OK));
-  } else {
-    IN(int, in_entry_null) if (in_entry_null) t->entry = (RegisterEntry *)0;
+  RT_SAN_TABLE()
+  g_rs_w = rt_rs_no_words; g_rs_fl = &rt_rs_no_flags; g_rs_n = 0u; g_rs_be = RT_BE(t);
+  g_rs_flags0 = 0u; g_old_bits = 0u; g_rs_defbits = 0u; g_rs_old_acc = false; g_rs_def_acc = false;
+  g_rs_cell_free = false; g_rs_all_cf = false;
+  if (RT_INIT(t)) {
+    /* table well-formedness (C04): no register shares a word with g_reg */
+    ASSUME(RT_SAN_ALL(RT_SAN_H_DISJOINT));
+    if (g_reg < t->entries) {
+      const RegisterEntry e = t->entry[g_reg];
+      g_rs_w = e.area->mem + e.offset;
+      g_rs_fl = &t->entry[g_reg].flags;
+      g_rs_n = SPEC_REG_WORDS(e.type);
+      g_rs_flags0 = e.flags;
+      g_old_bits = rt_bits(t, g_reg);
+      g_rs_defbits = SPEC_BITS(e.type, e.default_value);
+      g_rs_old_acc = RT_ACC(t, g_reg, g_old_bits);
+      g_rs_def_acc = RT_ACC(t, g_reg, g_rs_defbits);
+    }
+    g_rs_cell_free = in_cell_free && RT_SAN_ALL(RT_SAN_H_OUTSIDE);
+    g_rs_all_cf = in_all_cf && RT_SAN_ALL(RT_SAN_H_CANNOT_FAIL);
   }
-  g_reg = in_reg;
-  g_old_bits = (RT_INIT(t) && g_reg < t->entries) ? rt_bits(t, g_reg) : 0u;
-  g_cell = (g_k < area_a->size) ? &area_a->mem[g_k] : &rt_elsewhere;
   register_sanitise(t);
+  VERIF_CANARY();
+}
+
+/* ---- sanitise, bounded (tier B): the REAL register_sanitise with everything
+ * below it (reg_entry_sane, reg_entry_load_default, register_get,
+ * register_set, deserialisers, serialisers, validators, area callbacks) on a
+ * table of at most RT_SAN_EMAX registers; the statement is asserted here,
+ * for EVERY register of the table, after the call. */
+#define RT_SANB_PAIR(i, j) IMPLIES((i) < t->entries && (j) < t->entries, rt_disjoint(t, i, j))
+#if RT_SAN_EMAX <= 2
+#define RT_SANB_PAIRS() (RT_SANB_PAIR(0u, 1u))
+#else
+#define RT_SANB_PAIRS() (RT_SANB_PAIR(0u, 1u) && RT_SANB_PAIR(0u, 2u) && RT_SANB_PAIR(0u, 3u) \
+  && RT_SANB_PAIR(1u, 2u) && RT_SANB_PAIR(1u, 3u) && RT_SANB_PAIR(2u, 3u))
+#endif
+
+#define RT_SANB_BEFORE(k) \
+  const bool has##k = RT_INIT(t) && (k) < t->entries; \
+  const uint64_t ob##k = has##k ? rt_bits(t, k) : 0u; \
+  const uint16_t of##k = has##k ? t->entry[k].flags : 0u; \
+  const bool oa##k = has##k && rt_bits_acceptable(t, k, ob##k);
+
+#define RT_SANB_AFTER(k) \
+  if (has##k && rv.code == REG_ACCESS_SUCCESS) { \
+    const uint64_t nb = rt_bits(t, k); \
+    CHECK(IMPLIES(oa##k, nb == ob##k), "sanitise: a register whose content decodes and meets its constraint keeps its value"); \
+    CHECK(IMPLIES(!oa##k, rt_holds(t, k, rt_default_bits(t, k))), "sanitise: a register whose content does not decode or violates its constraint is reset to its default"); \
+    CHECK((t->entry[k].flags & REG_EF_TOUCHED) == 0, "sanitise: touched mark cleared"); \
+    CHECK((t->entry[k].flags | REG_EF_TOUCHED) == (of##k | REG_EF_TOUCHED), "sanitise: no other flag changed"); \
+    CHECK(rt_bits_acceptable(t, k, nb), "sanitise: the invariant is re-established (content decodes and meets the constraint)"); \
+  }
+
+void h_sanitise_bounded(void)
+{
+  RT_SAN_TABLE()
+  if (RT_INIT(t))
+    ASSUME(RT_SANB_PAIRS());   /* table well-formedness (C04) */
+  const bool cell_free = RT_INIT(t) && RT_SAN_ALL(RT_SAN_H_OUTSIDE);
+  const bool all_cf = RT_INIT(t) && RT_SAN_ALL(RT_SAN_H_CANNOT_FAIL);
+  const RegisterAtom cell0 = *g_cell;
+  const RegisterTable tab0 = tab;
+  RT_SANB_BEFORE(0u) RT_SANB_BEFORE(1u)
+#if RT_SAN_EMAX > 2
+  RT_SANB_BEFORE(2u) RT_SANB_BEFORE(3u)
+#endif
+  RegisterAccess rv = register_sanitise(t);
+  CHECK(IMPLIES(!RT_INIT(t), rv.code == REG_ACCESS_UNINITIALISED && *g_cell == cell0), "sanitise: uninitialised table refused, nothing written");
+  RT_SANB_AFTER(0u) RT_SANB_AFTER(1u)
+#if RT_SAN_EMAX > 2
+  RT_SANB_AFTER(2u) RT_SANB_AFTER(3u)
+#endif
+  CHECK(IMPLIES(all_cf, rv.code == REG_ACCESS_SUCCESS), "sanitise: fails only where a default cannot be loaded or a device refuses");
+  CHECK(IMPLIES(cell_free, *g_cell == cell0), "sanitise: words that belong to no register are never touched");
+  CHECK(tab.flags == tab0.flags && tab.entries == tab0.entries && tab.entry == tab0.entry, "sanitise: table header unchanged");
   VERIF_CANARY();
 }
